@@ -275,18 +275,42 @@ def mpi_pi(prec):
     b = mpf_pi(prec, round_ceiling)
     return a, b
 
+def _mpi_outward(f, x, prec, rounding):
+    # f(x) for a monotonic elementary function f, rounded in the given
+    # direction. mpf_exp and mpf_log are accurate to much better than
+    # one unit in the last place of the working precision, but their
+    # directed roundings are not guaranteed, so the value is moved
+    # outward before the final rounding (compare mpi_cos_sin).
+    wp = prec + 20
+    v = f(x, wp, rounding)
+    sign, man, exp, bc = v
+    if not man:
+        # zero or infinity: exact
+        return v
+    if bool(sign) == (rounding == round_floor):
+        p = from_man_exp((MPZ_ONE<<wp) + (MPZ_ONE<<10), -wp)
+    else:
+        p = from_man_exp((MPZ_ONE<<wp) - (MPZ_ONE<<10), -wp)
+    return mpf_mul(v, p, prec, rounding)
+
 def mpi_exp(s, prec):
     sa, sb = s
     # exp is monotonic
-    a = mpf_exp(sa, prec, round_floor)
-    b = mpf_exp(sb, prec, round_ceiling)
+    if sa == fzero:
+        a = fone
+    else:
+        a = _mpi_outward(mpf_exp, sa, prec, round_floor)
+    if sb == fzero:
+        b = fone
+    else:
+        b = _mpi_outward(mpf_exp, sb, prec, round_ceiling)
     return a, b
 
 def mpi_log(s, prec):
     sa, sb = s
     # log is monotonic
-    a = mpf_log(sa, prec, round_floor)
-    b = mpf_log(sb, prec, round_ceiling)
+    a = _mpi_outward(mpf_log, sa, prec, round_floor)
+    b = _mpi_outward(mpf_log, sb, prec, round_ceiling)
     return a, b
 
 def mpi_sqrt(s, prec):
